@@ -208,6 +208,8 @@ func c12ConsumerFacts(l *lean) {
 		{"credentialMapShape", "auth/api/iam/session.go", "credentialMap", "*PEXConsumer"},
 		{"newPEXConsumerShape", "auth/api/iam/session.go", "newPEXConsumer", ""},
 		{"resolveInputDescriptorValuesShape", "auth/api/iam/s2s_vptoken.go", "resolveInputDescriptorValues", ""},
+		{"validateRegistrationShape", "discovery/module.go", "validateRegistration", "*Module"},
+		{"containsCredentialShape", "discovery/module.go", "containsCredential", ""},
 		{"presenterBuildSubmissionShape", "vcr/holder/presenter.go", "buildSubmission", "presenter"},
 		{"formatsMatchShape", "vcr/credential/formats.go", "Match", "Formats"},
 		{"normalizeFormatShape", "vcr/credential/formats.go", "normalizeFormat", "Formats"},
